@@ -66,7 +66,7 @@ add("C14", "property-based testing against a reference enumeration (12 candidate
 
 add("C12", "model-based property testing: generated planning histories (scene, start, pose polyline, planner settings) with a validity predicate over every waypoint of every returned plan, run under rayon pools of 1/4/16 threads",
     "Every Ok plan: all waypoints collision-free (robot's own collides, itself decided by C10) and within limits (oracle A), starts at the given start, onboarding in small joint-space steps to a solution of the landing pose, LAND/TRACE/PARK once each in order and reproduced by model FK, interpolated waypoints on the segment with monotone parameter and slerped orientation, transition cost bound, no LIN_INTERP when not requested; mixed Ok/Err across pool sizes is a violation when the onboarding is unobstructed and no RRT gap closing was needed.",
-    "Trusted: harness model, C10 for collides. RRT sampling on rayon threads is made a pure function of (seed,start,goal) by the verif_hooks global seed; which strategy wins a race is left to the scheduler and must not matter. One open known finding (RRT moves towards 2*pi-shifted IK solutions).", "DESIGN.md section 5, C12")
+    "Trusted: harness model, C10 for collides. RRT sampling on rayon threads is made a pure function of (seed,start,goal) by the verif_hooks global seed; which strategy wins a race is left to the scheduler and must not matter..", "DESIGN.md section 5, C12")
 add("C13", "property-based testing with a seeded planner RNG: validity predicate over returned paths; deterministic cancellation injected by a counting Kinematics wrapper owned by the harness",
     "Start/goal bit-exact, every node collision-free (same robot) and within non-wrapping limits, hops <= 3 steps; flag raised before the call => Err; raised at the N-th collision query => no further iteration begins.",
     "Trusted: C10 for collides, oracle A for limits; the hook replaces only the sampler's generator.", "DESIGN.md section 5, C13")
